@@ -244,4 +244,28 @@ theorem C01_http_end_to_end_complete (cs : Bool) (req : List HttpServerStream.Re
   rw [hwire, hmsgs] at h2
   rw [h2, h1]
 
+/-- **HTTP request streams end to end.** For any execution of the client model and any handler
+    program on the server model whose request body is what the client has put on the wire so far
+    (possibly cut short inside a frame): the messages the handler's RecvMsg calls have returned are a
+    prefix of the messages the client's SendMsg calls offered, in call order — and only messages whose
+    SendMsg the transport accepted. -/
+theorem C01_http_end_to_end_request_prefix (rsFlag : Bool) (cacts : List Act) (sc : St)
+    (hcli : HttpClientStream.run (HttpClientStream.init rsFlag) cacts = some sc)
+    (tail : List HttpServerStream.ReqItem) (htail : tail = [] ∨ tail = [.cut])
+    (hacts : List HttpServerStream.Act) (ss : HttpServerStream.St) (rs : List InprocStream.Res)
+    (hsrv : HttpServerStream.run (HttpServerStream.init true (sc.reqWritten.map (fun m => .data m true) ++ tail)) hacts = some (ss, rs))
+    (hcs : ss.clientStreams = true) :
+    HttpServerStream.msgsOf rs <+: sc.reqWritten ∧ sc.reqWritten <+: sc.offered := by
+  have h1 := HttpServerStream.C01_http_server_request_prefix _ hacts ss rs hsrv hcs
+  have hd : HttpServerStream.dataOK (sc.reqWritten.map (fun m => HttpServerStream.ReqItem.data m true) ++ tail) = sc.reqWritten := by
+    rw [HttpServerStream.dataOK_append]
+    have : HttpServerStream.dataOK tail = [] := by rcases htail with rfl | rfl <;> rfl
+    rw [this, List.append_nil]
+    induction sc.reqWritten with
+    | nil => rfl
+    | cons m r ih => simp [HttpServerStream.dataOK, ih]
+  rw [hd] at h1
+  have hi := reqinv_run rsFlag cacts sc hcli
+  exact ⟨h1, (List.prefix_append _ _).trans hi.pre⟩
+
 end HttpCompose
